@@ -286,11 +286,14 @@ theorem merge_uuids {time : Nat} {objs : List Obj2D} {us : List String} {ms : Li
 
 /-! ## totality on referentially intact tables -/
 
-/-- what "well-formed" means for the 2-D loader: every token it follows resolves -/
+/-- what "well-formed" means for the 2-D loader: every token it follows resolves, every sensor channel is
+a `FrameID` value and no calibrated rotation is the zero quaternion (the signs of the quaternions are free) -/
 structure WellFormed2D (T : Tables) : Prop where
   samples_ne : T.samples ≠ []
   ego : ∀ sd ∈ T.sampleData, ∃ e, lookup EgoPose.token T.egoPoses sd.egoPoseToken = .ok e
-  sensors : ∃ frs, sensorFrames T = .ok frs
+  sensors : ∀ cs ∈ T.calibratedSensors, ∃ sen m, lookup Sensor.token T.sensors cs.sensorToken = .ok sen ∧
+    Enums.frameFromValue sen.channel = .ok m
+  rotations : ∀ cs ∈ T.calibratedSensors, cs.rotation ≠ Quat.zero
   oann_category : ∀ o ∈ T.objectAnns, ∃ c, lookup Named.token T.categories o.categoryToken = .ok c
   oann_attributes : ∀ o ∈ T.objectAnns, ∀ t ∈ o.attributeTokens, ∃ x, lookup Named.token T.attributes t = .ok x
   oann_instance : ∀ o ∈ T.objectAnns, ∃ i ∈ T.instances, i.token = o.instanceToken
@@ -301,7 +304,7 @@ theorem transforms2D_total {T : Tables} (wf : WellFormed2D T) :
   | [], acc, _ => ⟨acc, rfl⟩
   | (fr, sd) :: rest, acc, h => by
     obtain ⟨e, he⟩ := wf.ego sd (h (fr, sd) List.mem_cons_self)
-    obtain ⟨frs, hfrs⟩ := wf.sensors
+    obtain ⟨frs, hfrs⟩ := sensorFrames_total wf.sensors wf.rotations
     obtain ⟨tf, htf⟩ := transforms2D_total wf rest (some ⟨e.translation, e.rotation⟩)
       (fun c hc => h c (List.mem_cons_of_mem _ hc))
     exact ⟨tf, by simp [transforms2D, he, hfrs, htf]⟩
